@@ -559,6 +559,123 @@ def structural_descent_mutual(facts, roles, fs, cs):
     return "structural descent through %d call sites of the cycle: none hands on a tree that is not (part of) a tree-carrying parameter of its caller, %d go strictly inside an array/object payload (or a field / variant payload of a tree type), and the other %d form no cycle among themselves" % (len(edges), ns, len(edges) - ns)
 
 
+OPT_PAYLOAD_FN = re.compile(r"^std::(option::Option|result::Result)::<.*>::(map|map_or|map_or_else|and_then|is_some_and|is_ok_and|filter|inspect|then)$")
+
+
+KIND_PRED = {"is_null": "Null", "is_boolean": "Bool", "is_number": "Number", "is_string": "String", "is_array": "Array", "is_object": "Object"}
+
+
+def kind_predicate(facts, roles, body, x, kinds, depth=0):
+    """Truth value of a boolean expression that asks for the kind of a parameter whose kind is assumed (`kinds`:
+    parameter → variant name): serde_json's is_*() predicates, a private predicate function over them (read by
+    specialising it to the kinds of its arguments), negation.  None = not such a question."""
+    if depth > 4:
+        return None
+    x = strip_refs(x)
+    if x[0] == "const":
+        v = const_value(x[1])
+        return v if isinstance(v, bool) else None
+    if x[0] == "unop" and x[1] == "Not":
+        v = kind_predicate(facts, roles, body, x[2], kinds, depth)
+        return None if v is None else (not v)
+    if x[0] == "phi":
+        vs = {kind_predicate(facts, roles, body, y, kinds, depth) for y in x[2]}
+        return vs.pop() if len(vs) == 1 else None
+    if x[0] != "call" or not x[1]:
+        return None
+    m = re.match(r"^serde_json::Value::(is_\w+)$", x[1].get("path") or "")
+    if m:
+        a = strip_refs(x[2][0]) if x[2] else None
+        if m.group(1) in KIND_PRED and a is not None and a[0] == "arg" and a[1] in kinds:
+            return kinds[a[1]] == KIND_PRED[m.group(1)]
+        return None
+    if x[1].get("local"):
+        hb = facts.body(x[1]["key"])
+        if hb is None or hb.kind != "fn" or hb.local_ty(0) != "bool":
+            return None
+        ck = {}
+        for i, a in enumerate(x[2]):
+            a = strip_refs(a)
+            if a[0] == "arg" and a[1] in kinds:
+                ck[i + 1] = kinds[a[1]]
+        if not ck:
+            return None
+        try:
+            restrict = P.specialise_unit(roles, hb.key, lambda e, adt, _ck=ck: _ck.get(e[1]) if (adt == "serde_json::Value" and e[0] == "arg") else None,
+                                         assume_bool=lambda y, _ck=ck: kind_predicate(facts, roles, hb, y, _ck, depth + 1))
+        except Exception:
+            return None
+        with hb.restricted(restrict.get(hb.key, set())):
+            r = hb.trace(0)
+        return kind_predicate(facts, roles, hb, r, ck, depth + 1)
+    return None
+
+
+def value_kinds(facts, body, e, assign, depth=0):
+    """The JSON kinds (variant names) the value expression e can have, or None when it cannot be read.  Read from what
+    the value is — a parameter whose kind is assumed, a constructor (written as an aggregate or applied as a function,
+    here or in a private function that returns it, possibly inside Some/Ok), the payload a combinator hands to a
+    closure — not from where in the source it is built."""
+    if depth > 8:
+        return None
+    e = strip_refs(e)
+    if e[0] == "arg" and e[1] in assign:          # (x-traced: a parameter of the function, also when read through a closure capture)
+        return {assign[e[1]]}
+    if e[0] == "agg" and e[1].get("adt") == "serde_json::Value" and e[1].get("variant"):
+        return {e[1]["variant"]}
+    if e[0] == "call" and e[1] and re.match(r"^serde_json::Value::(Null|Bool|Number|String|Array|Object)$", e[1].get("path") or ""):
+        return {e[1]["path"].rsplit("::", 1)[1]}
+    if e[0] == "carg":
+        # a closure parameter: the payload of the Option/Result whose combinator runs the closure
+        cb = facts.body(e[1])
+        cr = cb.creator() if cb is not None else None
+        if cr is None or e[2] != 2:
+            return None
+        for bi, t in cr[0].calls():
+            if not OPT_PAYLOAD_FN.match(callee_path(t) or ""):
+                continue
+            if any(strip_refs(cr[0].trace(a))[0] == "agg" and strip_refs(cr[0].trace(a))[1].get("closure") == e[1] for a in t["args"][1:]):
+                return payload_kinds(facts, cr[0], cr[0].xtrace(t["args"][0]), assign, depth + 1)
+        return None
+    if e[0] == "phi":
+        out = set()
+        for x in e[2]:
+            r = value_kinds(facts, body, x, assign, depth + 1)
+            if r is None:
+                return None
+            out |= r
+        return out
+    if e[0] == "field" and e[2] == 0 and e[1][0] == "downcast" and e[1][2] in ("Some", "Ok"):
+        return payload_kinds(facts, body, e[1][1], assign, depth + 1)
+    return None
+
+
+def payload_kinds(facts, body, e, assign, depth=0):
+    """Kinds of the Some/Ok payload of an Option/Result expression (None/Err alternatives contribute nothing)."""
+    alts = PN.constructed(facts, body, e)
+    if alts is None or depth > 8:
+        return None
+    out = set()
+    for (b2, x) in alts:
+        x = strip_refs(x)
+        inner_assign = assign if b2 is body or b2.key.startswith(body.key) or body.key.startswith(b2.key) else {}
+        if x[0] == "agg" and x[1].get("variant") in ("Some", "Ok") and len(x[2]) == 1:
+            r = value_kinds(facts, b2, x[2][0], inner_assign, depth + 1)
+        elif x[0] == "agg" and x[1].get("variant") in ("None", "Err"):
+            continue
+        elif x[0] == "call" and x[1] and x[1]["path"] in ("std::option::Option::<T>::map", "std::result::Result::<T, E>::map") and len(x[2]) == 2:
+            f = strip_refs(x[2][1])
+            fn = (f[1].get("fn") or {}) if f[0] == "const" else {}
+            m = re.match(r"^serde_json::Value::(Null|Bool|Number|String|Array|Object)$", (fn.get("resolved") or fn).get("path") or fn.get("path") or "")
+            r = {m.group(1)} if m else None
+        else:
+            r = None
+        if r is None:
+            return None
+        out |= r
+    return out or None
+
+
 def variant_descent(facts, roles, f, cs):
     vps = value_params(f)
     if not vps or len(vps) > 2:
@@ -574,23 +691,18 @@ def variant_descent(facts, roles, f, cs):
                 return _a[e[1]]
             return None
 
-        restrict = P.specialise_unit(roles, f.key, assume)
+        restrict = P.specialise_unit(roles, f.key, assume, assume_bool=lambda x, _a=assign: kind_predicate(facts, roles, f, x, _a))
         outs = set()
         for b, bi, t in rec_sites(facts, f, cs):
             if bi not in restrict.get(b.key, set()):
                 continue
             nxt = []
             for p in vps:
-                e = strip_refs(b.xtrace(t["args"][p - 1]))
-                if e[0] == "arg" and e[1] in assign:
-                    nxt.append(assign[e[1]])   # a whole parameter handed on (possibly in the other position): its kind is known
-                elif e[0] == "agg" and e[1].get("adt") == "serde_json::Value":
-                    nxt.append(e[1]["variant"])
-                else:
-                    nxt.append(None)
+                ks = value_kinds(facts, b, b.xtrace(t["args"][p - 1]), assign)
+                nxt.append(sorted(ks) if ks else None)
             if None in nxt:
                 return None
-            outs.add(tuple(nxt))
+            outs.update(itertools.product(*nxt))
         edges[combo] = outs
     # acyclic?
     color = {}
